@@ -103,6 +103,18 @@ fn visit<'a>(
             }
             Ok(())
         }
-        Type::Name(ident) => visit_name(types, visited, ident.name),
+        Type::Name(ident) => {
+            // The type arguments are stored inline in the instantiated type
+            // (e.g. the `A` in `A?`), so they are part of the cycle check.
+            // A list only holds a pointer to its elements and therefore
+            // breaks the cycle.
+            if !matches!(types.get(&ident.name), Some(TypeDefinition::List(_)))
+            {
+                for arg in &ident.arguments {
+                    visit(types, visited, arg)?;
+                }
+            }
+            visit_name(types, visited, ident.name)
+        }
     }
 }
